@@ -1,6 +1,6 @@
 from functools import partial
 
-from . import p_calendar, p_domains, p_history, p_hybrid, p_io, p_polygon, p_search
+from . import p_calendar, p_domains, p_history, p_hybrid, p_io, p_numeric, p_polygon, p_search
 
 REGISTRY = {
     "C01": partial(p_search.run, "C01"),
@@ -12,6 +12,8 @@ REGISTRY = {
     "C07": partial(p_hybrid.run, "C07"),
     "C08": partial(p_hybrid.run, "C08"),
     "C03": p_domains.run,
+    "C09": p_numeric.run_c09,
+    "C11": p_numeric.run_c11,
     "C13": p_history.run,
     "C16": p_polygon.run_c16,
     "C17": p_io.run_c17,
